@@ -68,6 +68,6 @@ def run(replay=None):
     for i, clause in rec.validate(canary):
         inf = rec.info[i]
         rep.violation('%s|%s|%s' % (clause, inf['op'], inf['text']), '%s(%r) -> %s violates %s' % (inf['op'], inf['text'], inf['result'] or inf['out'], clause), inf)
-    for e in rec.events[:: max(1, len(rec.events) // 8)]:
+    for e in rec.dict_events()[:: max(1, len(rec.dict_events()) // 8)]:
         rep.sample({'op': e['op'], 'input': rec.info[e['id']]['text'], 'result': rec.info[e['id']]['result']})
     return rep.finish()
